@@ -136,6 +136,7 @@ pub fn run_stdin() {
     let mut out = std::io::BufWriter::new(stdout.lock());
     let mut st = State::new();
     let mut dead = false;
+    let mut last = String::new();
     for line in stdin.lock().lines() {
         let line = line.unwrap();
         let l = line.trim();
@@ -153,13 +154,24 @@ pub fn run_stdin() {
             writeln!(out, "skipped").unwrap();
             continue;
         }
+        if toks[0] == "expect" {
+            // oracle line: the previous result must be exactly this text
+            let want = toks[1..].join(" ");
+            if last == want {
+                writeln!(out, "ok").unwrap();
+            } else {
+                writeln!(out, "EXPECT-FAIL want={} got={}", want, last).unwrap();
+            }
+            continue;
+        }
         let r = catch_unwind(AssertUnwindSafe(|| dispatch(&mut st, &toks)));
         match r {
             Ok(s) => {
                 if s.starts_with("panic") {
                     dead = true;
                 }
-                writeln!(out, "{}", s).unwrap()
+                writeln!(out, "{}", s).unwrap();
+                last = s
             }
             Err(_) => {
                 dead = true;
